@@ -49,6 +49,7 @@ type Report struct {
 	Samples  []map[string]any
 	NQueries int
 	DeadNotes []string
+	Bounded  []boundedResult
 }
 
 func buildReport(ck *Checker, prop, tier string, seed int, results []*funcResult, verbose bool) *Report {
@@ -281,6 +282,33 @@ func (rep *Report) finish(ck *Checker, verif string, writeEvidence bool, engineE
 		fmt.Printf("FAILED obligation %s [%s by %s] at %s: %s\n", s.Name, o.Status, o.Solver, o.Pos, o.Note)
 		fmt.Println(line)
 	}
+	for _, br := range rep.Bounded {
+		if br.Passed {
+			continue
+		}
+		name := "bounded:" + br.Name
+		isKnown := false
+		for i := range known.Findings {
+			k := &known.Findings[i]
+			if k.Property == rep.Prop && k.Obligation == name && k.Status == "open" {
+				isKnown = true
+				knownHit++
+				knownLines = append(knownLines, fmt.Sprintf("KNOWN-FINDING: property=%s %s %s", rep.Prop, name, k.What))
+			}
+		}
+		if isKnown {
+			continue
+		}
+		violations++
+		os.MkdirAll(replayDir, 0o755)
+		rp := filepath.Join(replayDir, sanitizeFile(name)+".json")
+		rj := map[string]any{"property": rep.Prop, "obligation": name, "kind": "bounded stand-in (exhaustive up to the stated bound, on the real code)",
+			"bound": br.Bound, "cases": br.Cases, "command": br.Cmd, "output": truncate(br.Output, 8000), "replay": map[string]any{"result": "violation reproduced on the real code"}}
+		b, _ := json.MarshalIndent(rj, "", " ")
+		os.WriteFile(rp, append(b, '\n'), 0o644)
+		fmt.Printf("FAILED bounded stand-in %s (bound %d): see %s\n", br.Name, br.Bound, rp)
+		fmt.Printf("VIOLATION property=%s replay=%s\n", rep.Prop, rp)
+	}
 	for _, l := range knownLines {
 		fmt.Println(l)
 	}
@@ -366,6 +394,8 @@ func (rep *Report) finish(ck *Checker, verif string, writeEvidence bool, engineE
 			"samples":               samples,
 			"vacuity":               map[string]any{"problems": rep.Vacuous, "checks": "requires satisfiable per function; every finished path gets a feasibility query; at least one feasible return path per function; every control-flow edge explored must lie on a feasible path (else VACUOUS)", "accepted_dead_edges": rep.DeadNotes},
 			"times_s":               rep.Times,
+			"bounded_standins":      rep.Bounded,
+			"bounded_note":          "bounded stand-ins are exhaustive checks of the real code up to the stated bound; they are NOT counted in obligations/discharged",
 		},
 		"assumptions": assumptions,
 		"wall_s":      rep.Wall,
